@@ -247,7 +247,7 @@ Section P.
     end.
   Proof.
     unfold gstep3. intros H.
-    destruct st as [st| |all]; [destruct st|..];
+    destruct st as [st| |all|rk]; [destruct st|..];
       repeat match type of H with
              | context [commit3 ?c ?k ?j ?s ?S ?x] =>
                let Hc := fresh "Hc" in
